@@ -142,7 +142,7 @@ Proof.
   destruct (load_models P) as [models|e].
   2:{ split; [split; intros H; discriminate H|]. intros acts H; discriminate H. }
   rewrite plan_next_unfold.
-  change (replay []) with (@Ok schema planner_error []).
+  change (replay []) with (@Ok schema planner_error []). cbv beta iota.
   destruct (diff_actions [] models) as [acts0|e].
   2:{ split; [split; intros H; discriminate H|]. intros acts H; discriminate H. }
   assert (Hpp : p_actions (plan_with_prefix (pj_prefix P) (mkPlan "" None None (next_version []) acts0))
@@ -182,10 +182,10 @@ Theorem sql_prefix_refuted :
             /\ cmd_diff P = Ok DiffNone
             /\ exists v acts b, cmd_sql P = Ok (SqlRender v acts b) /\ acts <> [].
 Proof.
-  exists P_prefix. repeat split.
-  - vm_compute. reflexivity.
-  - destruct sql_prefix_refuted_witness as [_ [cols [ks [b H]]]].
-    do 3 eexists. split; [exact H|]. intros Hc. discriminate Hc.
+  exists P_prefix. split; [reflexivity|]. split; [reflexivity|]. split; [reflexivity|].
+  split; [vm_compute; reflexivity|].
+  destruct sql_prefix_refuted_witness as [_ [cols [ks [b H]]]].
+  do 3 eexists. split; [exact H|]. intros Hc. discriminate Hc.
 Qed.
 
 (* D7: nullability change only *)
@@ -198,6 +198,14 @@ Theorem status_refuted :
 Proof. exists P_nullable. split; vm_compute; reflexivity. Qed.
 
 (* ------------------------------------------------------------------ log vs the macro *)
+Lemma validate_files_err : forall fs e, validate_files fs = Err e -> exists f ve, e = ELoadMigration f ve.
+Proof.
+  induction fs as [|[f p] r IH]; cbn [validate_files]; intros e H; [discriminate H|].
+  destruct (validate_migration_plan p) as [u|ve].
+  - exact (IH e H).
+  - inversion H; subst e. eauto.
+Qed.
+
 Theorem log_equals_runtime : forall P,
   (forall es, cmd_log P = Ok (LogEntries es) ->
      macro_blocks P = Ok es \/ exists e, macro_blocks P = Err (MacroModels e))
@@ -214,22 +222,11 @@ Proof.
     destruct (map_result normalize (map snd (pj_models P))) as [ns|e]; [left; reflexivity|right; eauto].
   - destruct (map_result normalize (map snd (pj_models P))) as [ns|e]; [|intros H; discriminate H].
     intros H. inversion H; subst es.
-    destruct (validate_files (pj_migrations P)) as [[]|e].
+    destruct (validate_files (pj_migrations P)) as [[]|e] eqn:Hv.
     + destruct (sort_plans (map snd (pj_migrations P))) as [|p r] eqn:Hs.
       * right; left. split; reflexivity.
       * left. reflexivity.
-    + right; right. destruct e as [x|file ve|x|x].
-      * (* validate_files only produces ELoadMigration *)
-        exfalso. revert x. clear.
-        induction (pj_migrations P) as [|[f p] r IH]; cbn [validate_files]; [intros x H; discriminate H|].
-        destruct (validate_migration_plan p); [exact IH|intros x H; discriminate H].
-      * eauto.
-      * exfalso. revert x. clear.
-        induction (pj_migrations P) as [|[f p] r IH]; cbn [validate_files]; [intros x H; discriminate H|].
-        destruct (validate_migration_plan p); [exact IH|intros x H; discriminate H].
-      * exfalso. revert x. clear.
-        induction (pj_migrations P) as [|[f p] r IH]; cbn [validate_files]; [intros x H; discriminate H|].
-        destruct (validate_migration_plan p); [exact IH|intros x H; discriminate H].
+    + right; right. destruct (validate_files_err _ _ Hv) as [file [ve He]]. subst e. eauto.
 Qed.
 
 (* the two differ exactly where the loaders differ: the CLI loader validates stored plans, the macro's does not
